@@ -162,7 +162,7 @@ hrepack_addchunk(const char *str, options_t *options)
         }
     }
 
-    if (i > 1) {
+    if (i > 1 && options->all_chunk == 1) {
         printf("\nError: '*' cannot be with other objects, <%s>. Exiting...\n", str);
         goto out;
     }
